@@ -6,7 +6,7 @@ use crate::{vassert, vassert_kf, vassume, vcell, vcover, vsym};
 
 macro_rules! flags_and_frame {
     ($name:expr, $vm:expr, $pre:expr, $ef:expr, $keep_cf:expr, $w_p:expr, $w_pv:expr,
-     $cf_kf:expr, $cf_region:expr, $sf_kf:expr, $sf_region:expr) => {{
+     $cf_kf:ident, $cf_region:expr, $sf_kf:ident, $sf_region:expr) => {{
         let post = regs(&$vm);
         let pf = fl_of(post.flag);
         let ecf = if $keep_cf { fl_of($pre.flag).cf } else { $ef.cf };
@@ -43,7 +43,7 @@ macro_rules! bin_harness {
             vassert!(concat!("C01.", $name, ".res"), r == er);
             vcover!(concat!("C01.", $name, ".cover.carry"), ef.cf);
             vcover!(concat!("C01.", $name, ".cover.overflow"), ef.of);
-            flags_and_frame!($name, vm, pre, ef, false, w_p, w_pv, "", false, "", false);
+            flags_and_frame!($name, vm, pre, ef, false, w_p, w_pv, KF_NONE, false, KF_NONE, false);
             done(vm);
         }
     };
@@ -51,7 +51,7 @@ macro_rules! bin_harness {
 
 macro_rules! un_harness {
     ($h:ident, $name:expr, $f:ident, $t:ty, $keep_cf:expr, $oracle:expr,
-     $cf_kf:expr, $cf_region:expr, $sf_kf:expr, $sf_region:expr) => {
+     $cf_kf:ident, $cf_region:expr, $sf_kf:ident, $sf_region:expr) => {
         #[cfg_attr(kani, kani::proof)]
         pub fn $h() {
             let mut vm = mk_vm();
@@ -97,17 +97,17 @@ bin_harness!(c01_word_cmp, "word_cmp", word_cmp, u16, |a, b, _c| {
 // NEG of 0 keeps the incoming SF.  The obligation is asserted everywhere outside the region
 // in which the defective and the specified behaviour differ.
 un_harness!(c01_byte_inc, "byte_inc", byte_inc, u8, true, |a| ref_add8(a, 1, false),
-    "KF-C01-inc-CF", |a: u8, cf: bool| cf != (a == 0xFF), "", |_a: u8, _s: bool| false);
+    KF_C01_inc_CF, |a: u8, cf: bool| cf != (a == 0xFF), KF_NONE, |_a: u8, _s: bool| false);
 un_harness!(c01_byte_dec, "byte_dec", byte_dec, u8, true, |a| ref_sub8(a, 1, false),
-    "KF-C01-dec-CF", |a: u8, cf: bool| cf != (a == 0), "", |_a: u8, _s: bool| false);
+    KF_C01_dec_CF, |a: u8, cf: bool| cf != (a == 0), KF_NONE, |_a: u8, _s: bool| false);
 un_harness!(c01_byte_neg, "byte_neg", byte_neg, u8, false, |a| ref_sub8(0, a, false),
-    "", |_a: u8, _c: bool| false, "KF-C01-neg0-SF", |a: u8, sf: bool| a == 0 && sf);
+    KF_NONE, |_a: u8, _c: bool| false, KF_C01_neg0_SF, |a: u8, sf: bool| a == 0 && sf);
 un_harness!(c01_word_inc, "word_inc", word_inc, u16, true, |a| ref_add16(a, 1, false),
-    "KF-C01-inc-CF", |a: u16, cf: bool| cf != (a == 0xFFFF), "", |_a: u16, _s: bool| false);
+    KF_C01_inc_CF, |a: u16, cf: bool| cf != (a == 0xFFFF), KF_NONE, |_a: u16, _s: bool| false);
 un_harness!(c01_word_dec, "word_dec", word_dec, u16, true, |a| ref_sub16(a, 1, false),
-    "KF-C01-dec-CF", |a: u16, cf: bool| cf != (a == 0), "", |_a: u16, _s: bool| false);
+    KF_C01_dec_CF, |a: u16, cf: bool| cf != (a == 0), KF_NONE, |_a: u16, _s: bool| false);
 un_harness!(c01_word_neg, "word_neg", word_neg, u16, false, |a| ref_sub16(0, a, false),
-    "", |_a: u16, _c: bool| false, "KF-C01-neg0-SF", |a: u16, sf: bool| a == 0 && sf);
+    KF_NONE, |_a: u16, _c: bool| false, KF_C01_neg0_SF, |a: u16, sf: bool| a == 0 && sf);
 
 // vacuity twin: must FAIL
 #[cfg_attr(kani, kani::proof)]
